@@ -36,5 +36,6 @@ func runC05(r *hk.Run) {
 	runRequestWriter(r, rng.Fork())
 	runH2EncoderSeq(r, rng.Fork())
 	runH2Conn(r, rng.Fork())
+	runH3Responses(r, rng.Fork())
 	runHeaderMap(r, rng.Fork())
 }
